@@ -112,12 +112,13 @@ CCleanup(X) ==                                                             \* Tc
 
 CSend(X, n) == IF X.st = "connected" THEN [X EXCEPT !.tx = IF X.peer = "open" /\ ~X.shut THEN @ + n ELSE @, !.r = 1]   \* bytes for a closed peer / after SHUT_WR are lost
                ELSE [X EXCEPT !.r = 0]
-CShutdown(X) ==                                                            \* TcpClient::shutdown(SHUT_WR)
+CShutdown(X, rr) ==                                                        \* TcpClient::shutdown(SHUT_WR)
   IF X.st = "connected"
-  THEN [X EXCEPT !.shut = TRUE, !.peof = @ \/ X.peer = "open",              \* the peer reads the end of the stream
-                 \* kernel: a TCP socket that has sent and received FIN is closed: shutdown() says ENOTCONN
-                 !.r = IF X.fam = "tcp" /\ X.peer = "closed" /\ X.shut THEN 0 ELSE 1]
+  THEN [X EXCEPT !.shut = TRUE, !.peof = @ \/ X.peer = "open", !.r = rr]     \* the peer reads the end of the stream
   ELSE [X EXCEPT !.r = 0]
+\* kernel: once the peer's socket is gone a TCP socket may already be closed (FIN both ways, or reset after a send into the
+\* void): shutdown() then says ENOTCONN - not cpp-tbox's business, both answers are accepted
+ShutRets(X) == IF X.st = "connected" /\ X.fam = "tcp" /\ X.peer = "closed" THEN {0, 1} ELSE {1}
 
 Receive(X) ==                                                              \* BufferedFd read -> receive callback
   React(Ev([X EXCEPT !.rxoff = @ + X.rx, !.rx = 0], "Recv", X.rxoff % 251, X.rx), "R")
@@ -178,7 +179,7 @@ AdvOp(ms) == Alive /\ Op("adv", [Clr(S) EXCEPT !.now = @ + ms])
 PassOp == Alive /\ Op("pass", [DoPass(Clr(S)) EXCEPT !.r = 0])
 ArmOp(w, a) == Alive /\ Op("arm", [Clr(S) EXCEPT !.arm[w] = a])
 SendOp(n) == IsCl /\ S.peer # "closed" /\ Op("send", CSend(Clr(S), n))      \* assumption: no send() after the peer is known to have closed
-ShutdownOp == IsCl /\ Op("shutdown", CShutdown(Clr(S)))
+ShutdownOp == IsCl /\ \E rr \in ShutRets(S) : Op("shutdown", CShutdown(Clr(S), rr))
 PSendOp(n) == IsCl /\ S.st = "connected" /\ S.peer = "open" /\ Op("psend", [Clr(S) EXCEPT !.rx = @ + n])
 PCloseOp == IsCl /\ S.st = "connected" /\ S.peer = "open" /\ Op("pclose", [Clr(S) EXCEPT !.peer = "closed"])
 DestroyOp == Alive /\ Op("destroy", XCleanup(Clr(S)))      \* destructors: cleanup()
